@@ -64,6 +64,8 @@ def build(u):
     u.emit(T, 'struct Structure', pub_fields=True)
     u.include('spec/u_sym_spec.rs', kind='spec')
     u.include('spec/u_typst_spec.rs', kind='spec')
+    u.include('spec/u_typas_spec.rs', kind='spec')
+    u.include('spec/u_typref_spec.rs', kind='spec')
     u.include('prelude/typst_helpers.rs')
     u.include('prelude/expand_slice.rs')
     u.include('prelude/typarg_hints.rs')
